@@ -65,8 +65,8 @@ GROWTH = 8              # steps(2n) <= GROWTH * steps(n) + GROWTH_C   for n >= 8
 GROWTH_C = 5000
 NS = [1, 2, 4, 8, 16, 32, 64]
 NS_RING = [1, 2, 4, 8, 16, 32, 40]   # the property speaks of cyclic graphs of up to 40 nodes
-WATCHDOG_S = 120          # CPU seconds of the worker per program (ITIMER_VIRTUAL: load independent)
-WATCHDOG_WALL_S = 1800    # last resort for a worker blocked without using CPU
+WATCHDOG_S = 600          # CPU seconds of the worker per program (ITIMER_VIRTUAL: load independent)
+WATCHDOG_WALL_S = 3600    # last resort for a worker blocked without using CPU
 STOP_AFTER_VIOLATIONS = 1     # stop after the first stage that produced an unlisted violation
 
 
@@ -498,8 +498,6 @@ def _levels(tier):
         [(a, 'b') for a in small2 + small3])
     add('uniform: every shape with 4 arcs on <=3 nodes x 1 kind',
         [(gen.uniform(s, k), 'p') for s in sh[2] + sh3_sparse if len(s) == 4 for k in singles])
-    add('uniform: the 4-arc shape on 2 nodes x 2 kinds',
-        [(gen.uniform(s, k), 'p') for s in sh[2] if len(s) > 3 for k in pairs])
     add('3-cycles, every kind triple, with base definitions', [(a, 'b') for a in cyc3])
     add('uniform: every shape with >4 arcs on 3 nodes x 1 kind',
         [(gen.uniform(s, k), 'p') for s in sh3_dense for k in singles])
@@ -519,6 +517,8 @@ def _levels(tier):
     add('all graphs, 3 nodes, 3 atoms', [(a, 'p') for a in g33])
     add('uniform: every shape with <=3 arcs on 3 nodes x 2 kinds',
         [(gen.uniform(s, k), 'p') for s in sh[3] if len(s) <= 3 for k in pairs])
+    add('uniform: the 4-arc shape on 2 nodes x 2 kinds',
+        [(gen.uniform(s, k), 'p') for s in sh[2] if len(s) > 3 for k in pairs])
     return levels
 
 
@@ -584,6 +584,8 @@ def run(ctx):
     cpu = [0.0, 0]
 
     known = findings.load(ID)
+    # maintenance aid: explore everything even after a violation (to list all failing inputs)
+    no_early_stop = bool(os.environ.get('JV_C15_NO_EARLY_STOP'))
 
     def violation(site, input_id, detail, case):
         nonlocal nviol
@@ -680,7 +682,7 @@ def run(ctx):
         level_cost['scaling'] = {'programs': len(tasks),
                                  'worker_cpu_s': round(cpu[0] - cpu_before[0], 1),
                                  'steps': cpu[1] - cpu_before[1]}
-        if nviol >= STOP_AFTER_VIOLATIONS and not calibrate:
+        if nviol >= STOP_AFTER_VIOLATIONS and not calibrate and not no_early_stop:
             stopped_early = True
             ctx.note('stopping after the scaling families: %d violations already' % nviol)
     else:
@@ -737,7 +739,7 @@ def run(ctx):
         level_cost[name] = {'programs': len(tasks),
                             'worker_cpu_s': round(cpu[0] - cpu_before[0], 1),
                             'steps': cpu[1] - cpu_before[1]}
-        if nviol >= STOP_AFTER_VIOLATIONS and not calibrate:
+        if nviol >= STOP_AFTER_VIOLATIONS and not calibrate and not no_early_stop:
             stopped_early = True
             ctx.note('stopping after level "%s": %d violations already' % (name, nviol))
 
